@@ -186,7 +186,6 @@ func c16Program(g *prog.Gen, idx int) []*prog.Op {
 	return ops
 }
 
-
 // c16DeleteProgram: DeleteBucket against buckets whose only content has one particular shape (dot-files,
 // nested keys, names resembling the bookkeeping directory, a delete marker only, old versions only, an
 // upload in progress only), then emptied step by step with a DeleteBucket attempt after every step.
